@@ -1,9 +1,13 @@
 import ast
 from pathlib import Path
-from typing import Dict, List, Optional, Set
+from typing import Dict, List, Optional, Set, Tuple
 
 from graphql import (
     FragmentDefinitionNode,
+    GraphQLEnumType,
+    GraphQLInputObjectType,
+    GraphQLInterfaceType,
+    GraphQLObjectType,
     GraphQLSchema,
     OperationDefinitionNode,
     OperationType,
@@ -35,6 +39,7 @@ from .constants import (
 )
 from .custom_fields import CustomFieldsGenerator
 from .custom_fields_typing import CustomFieldsTypingGenerator
+from .custom_generator_utils import TypeCollector, get_final_type
 from .custom_operation import CustomOperationGenerator
 from .enums import EnumsGenerator
 from .fragments import FragmentsGenerator
@@ -172,6 +177,7 @@ class PackageGenerator:
         self._generate_fragments()
         self._copy_files()
         if self.enable_custom_operations:
+            self._used_enums.extend(self._get_custom_operations_arguments_types()[1])
             self._generate_custom_fields_typing()
             self._generate_custom_fields()
             self.client_generator.add_execute_custom_operation_method(self.async_client)
@@ -333,6 +339,10 @@ class PackageGenerator:
             module = self.input_types_generator.generate()
         else:
             used_inputs = self.client_generator.arguments_generator.get_used_inputs()
+            if self.enable_custom_operations:
+                used_inputs = (
+                    used_inputs + self._get_custom_operations_arguments_types()[0]
+                )
             module = self.input_types_generator.generate(types_to_include=used_inputs)
 
         input_types_file_path = self.package_path / f"{self.input_types_module_name}.py"
@@ -347,6 +357,26 @@ class PackageGenerator:
             self.input_types_module_name,
             1,
         )
+
+    def _get_custom_operations_arguments_types(self) -> Tuple[List[str], List[str]]:
+        # Custom operations modules import types of arguments of every field
+        # they expose, so these types can't be pruned.
+        definitions = [self.schema.query_type, self.schema.mutation_type] + [
+            self.schema.get_type(name) for name in TypeCollector(self.schema).collect()
+        ]
+        inputs: List[str] = []
+        enums: List[str] = []
+        for definition in definitions:
+            if not isinstance(definition, (GraphQLObjectType, GraphQLInterfaceType)):
+                continue
+            for field in definition.fields.values():
+                for arg in field.args.values():
+                    arg_type = get_final_type(arg)
+                    if isinstance(arg_type, GraphQLInputObjectType):
+                        inputs.append(arg_type.name)
+                    elif isinstance(arg_type, GraphQLEnumType):
+                        enums.append(arg_type.name)
+        return inputs, enums
 
     def _generate_result_types(self):
         for file_name, module in self._result_types_files.items():
